@@ -475,6 +475,55 @@ def jacrev_arguments(env):
     env.holds('the default is argument 0', tuple(J0.shape) == (3, 7))
 
 
+@bounded('C04.modjac_models', functions=['pypose.optim.functional:modjac'])
+def modjac_models(rng, tier):
+    """real code: modjac (the Jacobian GN / LM use) on module structures autograd handles but a functional re-binding of parameters may not: ONE
+    group parameter shared by two sub-modules (registered under two names), a parameter used twice in one forward, two independent parameters -
+    against central differences of the left perturbation Exp(tau) @ X (float64)"""
+    import torch, pypose as pp
+    from torch import nn
+    from pypose.optim.functional import modjac
+    d = torch.float64
+    fails = []; evals = 0
+    class Link(nn.Module):
+        def __init__(self, pose): super().__init__(); self.pose = pose
+        def forward(self, p): return self.pose @ p
+    class Chain(nn.Module):
+        def __init__(self, a, b): super().__init__(); self.first = Link(a); self.second = Link(b)
+        def forward(self, p): return self.second(self.first(p)).reshape(-1)
+    class Twice(nn.Module):
+        def __init__(self, a): super().__init__(); self.pose = a
+        def forward(self, p): return (self.pose @ (self.pose @ p)).reshape(-1)
+    for gname, dof in (('SO3', 3), ('SE3', 6), ('Sim3', 7)):
+        for t in range(2 if tier == 'quick' else 8):
+            X0 = getattr(pp, 'randn_' + gname)(dtype=d); Y0 = getattr(pp, 'randn_' + gname)(dtype=d); p = torch.randn(4, 3, dtype=d)
+            alg = getattr(pp, gname.lower())
+            def fd(build):
+                cols = []; h = 1e-6
+                for j in range(dof):
+                    tau = torch.zeros(dof, dtype=d); tau[j] = h
+                    cols.append((build(alg(tau).Exp() @ X0)(p) - build(alg(-tau).Exp() @ X0)(p)) / (2 * h))
+                return torch.stack(cols, -1)
+            shared = pp.Parameter(X0.clone())
+            cases = {'one parameter shared by two sub-modules': (Chain(shared, shared), lambda X: (lambda q: (X @ (X @ q)).reshape(-1))),
+                     'one parameter used twice in forward': (Twice(pp.Parameter(X0.clone())), lambda X: (lambda q: (X @ (X @ q)).reshape(-1))),
+                     'two independent parameters (Jacobian w.r.t. the first)': (Chain(pp.Parameter(X0.clone()), pp.Parameter(Y0.clone())), lambda X: (lambda q: (Y0 @ (X @ q)).reshape(-1)))}
+            for cname, (model, build) in cases.items():
+                try:
+                    J = modjac(model, input=p, flatten=True)
+                except Exception as e:
+                    fails.append(dict(clause='modjac_raises', signature=f'{gname}/{cname}', error=f'{type(e).__name__}: {e}'[:140])); continue
+                evals += 1
+                Jx = J[:, :dof]; ref = fd(build)
+                err = float((Jx - ref).abs().max()) / (1 + float(ref.abs().max()))
+                if err > (2e-5 if gname != 'Sim3' else 2e-5) or float(J[:, dof].abs().max()) != 0.0:
+                    fails.append(dict(clause='modjac_is_the_left_perturbation_jacobian', signature=f'{gname}/{cname}', err=err, last_slot=float(J[:, dof].abs().max())))
+    uniq = {}
+    for f_ in fails: uniq.setdefault((f_['clause'], f_['signature']), f_)
+    return dict(evaluations=evals, distinct_nontrivial=evals, rule='3 group types x 3 module structures, random parameters', bound='4 points, float64',
+                failures=list(uniq.values())[:8], samples=[])
+
+
 @obligation('C04.canary.right_perturbation', functions=[f'{OPS}:SE3_Act.backward'], canary=True)
 def canary(env):
     """a right-perturbation Jacobian must be refuted"""
